@@ -165,8 +165,10 @@ class Ctx:
                 t = live[tidv - 1]
                 rejects.append((t, last.get('l'), dict(last, _error=r.error, _name=r.error_name)))
             break       # -continue explored every trace: all rejections are in this run
-        if not rejects:        # with rejections TLC may not have reported every rejected trace
+        if not rejects:
             self.traces += len(traces)
+        elif len(rejects) < max_reject:        # -continue reports every rejected trace unless the cap was reached: the others were accepted
+            self.traces += len(traces) - len(rejects)
         self.trace_events += nevents
         return rejects
 
